@@ -116,3 +116,6 @@ package util
 //@   noverify
 //@   pure
 //@   ensures result <==> roughly(input, output)
+
+// ---- C20: no queue method returns holding the lock
+//@ released [C20] Queue.lock
